@@ -23,6 +23,7 @@ import (
 	"sort"
 	"strconv"
 	"sync"
+	"sync/atomic"
 	"time"
 
 	"github.com/pingcap/failpoint"
@@ -57,6 +58,8 @@ type plan struct {
 	injected   int
 	finals     int
 	bodylessed int
+	onFirst    func()   // runs (under the wrapper's lock) when the first region error is injected: kill / cancel mid-call
+	envErrs    []string // region errors / errors the mock store itself answered to a passed-through request
 }
 
 type inject struct {
@@ -80,6 +83,9 @@ func (c *inject) SendRequest(ctx context.Context, addr string, req *tikvrpc.Requ
 	if p.errsLeft[rid] > 0 {
 		p.errsLeft[rid]--
 		p.injected++
+		if p.injected == 1 && p.onFirst != nil {
+			p.onFirst()
+		}
 		c.mu.Unlock()
 		re := &errorpb.Error{Message: "injected", EpochNotMatch: &errorpb.EpochNotMatch{}}
 		return tikvrpc.GenRegionErrorResp(req, re)
@@ -104,7 +110,21 @@ func (c *inject) SendRequest(ctx context.Context, addr string, req *tikvrpc.Requ
 		// mocktikv has no CheckSecondaryLocks: answer "no lock found, not committed" (the transaction was rolled back)
 		return &tikvrpc.Response{Resp: &kvrpcpb.CheckSecondaryLocksResponse{}}, nil
 	}
-	return c.Client.SendRequest(ctx, addr, req, timeout)
+	resp, err := c.Client.SendRequest(ctx, addr, req, timeout)
+	note := ""
+	if err != nil {
+		note = "err:" + err.Error()
+	} else if resp != nil && resp.Resp != nil {
+		if re, e2 := resp.GetRegionError(); e2 == nil && re != nil {
+			note = fmt.Sprintf("region %d: %s", rid, re.String())
+		}
+	}
+	if note != "" {
+		c.mu.Lock()
+		p.envErrs = append(p.envErrs, note)
+		c.mu.Unlock()
+	}
+	return resp, err
 }
 
 // the async client API (EnableAsyncBatchGet): same plan, answered from a goroutine like the mock client does
@@ -152,6 +172,7 @@ type record struct {
 	Values   int     `json:"values"`
 	Injected int     `json:"injected"`
 	Finals   int     `json:"finals"`
+	EnvErrs  []string `json:"env_errs"` // answers with a (region) error that came from the mock store itself, not from the plan
 	// site "public": several public Get / BatchGet calls on ONE snapshot with runtime statistics
 	Async      bool           `json:"async"`
 	AsyncReqs  int            `json:"async_reqs"`
@@ -239,6 +260,20 @@ func main() {
 		}
 	}
 
+	// warm the region caches (the first calls of a cold cache may see region errors of the cache's own making)
+	{
+		var ks [][]byte
+		for reg := 0; reg < nregions; reg++ {
+			ks = append(ks, key(reg*10+1))
+		}
+		ts, _ := store.CurrentTimestamp("global")
+		if _, err := store.GetSnapshot(ts).BatchGet(context.Background(), ks); err != nil {
+			panic(err)
+		}
+		if _, err := raw.VerifSendBatchGet(retry.NewBackofferWithVars(context.Background(), 40000, nil), ks); err != nil {
+			panic(err)
+		}
+	}
 	planID := 1 << 20
 	publicRun := func(run int) {
 		async := r.Intn(2) == 0
@@ -325,8 +360,13 @@ func main() {
 		w := 2 + r.Intn(nregions-1) // regions taking part
 		k := 1 + r.Intn(2)
 		ending := "ok"
-		if r.Intn(2) == 0 && site != "rawbatchget" { // a body-less RawBatchGet answer is not an error path of the consumer
+		switch e := r.Intn(8); {
+		case e < 3 && site != "rawbatchget": // a body-less RawBatchGet answer is not an error path of the consumer
 			ending = "error"
+		case e == 3: // the query is killed when the first region error is answered: that worker's back-off sleeps once and fails
+			ending = "killed"
+		case e == 4: // the caller's context is cancelled at that moment: no back-off sleeps or is accounted any more
+			ending = "cancelled"
 		}
 		regs := r.Perm(nregions)[:w]
 		sort.Ints(regs)
@@ -371,7 +411,8 @@ func main() {
 			}
 		}
 		ctx, cancel := context.WithCancel(context.WithValue(context.Background(), runKey, p.id))
-		bo := retry.NewBackofferWithVars(ctx, 40000, kv.NewVariables(new(uint32)))
+		killFlag := new(uint32)
+		bo := retry.NewBackofferWithVars(ctx, 40000, kv.NewVariables(killFlag))
 		var pre []int
 		for n := r.Intn(4); n > 0; n-- {
 			kind := r.Intn(2)
@@ -383,6 +424,13 @@ func main() {
 			if err := bo.Backoff(cfg, errors.New("pre")); err != nil {
 				panic(err)
 			}
+		}
+		switch ending { // both happen in the middle of the call, when the first region error is handed out
+		case "killed":
+			sig := uint32(1 + r.Intn(3))
+			p.onFirst = func() { atomic.StoreUint32(killFlag, sig) }
+		case "cancelled":
+			p.onFirst = cancel
 		}
 		rec := record{Run: run, Site: site, Workers: w, K: k, Ending: ending, Slow: slow, Pre: pre, Before: snap(bo)}
 		in.mu.Lock()
@@ -413,7 +461,7 @@ func main() {
 			rec.Err = errors.Cause(callErr).Error()
 		}
 		in.mu.Lock()
-		rec.Injected, rec.Finals = p.injected, p.finals
+		rec.Injected, rec.Finals, rec.EnvErrs = p.injected, p.finals, p.envErrs
 		in.p = nil
 		in.mu.Unlock()
 		cancel()
